@@ -139,6 +139,20 @@ fn gen_sets(prop: &str, tier: &str) -> Vec<ProgSet> {
                     sets.push(ProgSet { programs: m3, writer: None, main_reads: true, readers_see_only_v0: false, bound: Some(3), expect_facts: vec![] });
                 }
             }
+            // payloads without drop glue: nothing may be skipped for them either
+            assert!(!std::mem::needs_drop::<LN>(), "the plain payload must not have drop glue");
+            for k in [Kind::N, Kind::TN] {
+                let pp: Vec<Program> = programs(k, &[Read, Clone, CloneArc, Convert, Drop], 2);
+                for m2 in multisets(&pp, 2) {
+                    if m2.iter().map(|p| p.ops.len()).sum::<usize>() <= 3 {
+                        sets.push(ProgSet { programs: m2, writer: None, main_reads: true, readers_see_only_v0: false, bound: None, expect_facts: vec![] });
+                    }
+                }
+                let p1: Vec<Program> = programs(k, &[Read, Clone, Drop], 1);
+                for m3 in multisets(&p1, 3) {
+                    sets.push(ProgSet { programs: m3, writer: None, main_reads: true, readers_see_only_v0: false, bound: Some(if thorough { 3 } else { 2 }), expect_facts: vec![] });
+                }
+            }
             // simplest first across the groups, so that a wall-clock cap cuts every group proportionally
             sets.sort_by_key(|s| (s.programs.iter().map(|p| p.ops.len()).sum::<usize>() + s.programs.len(), s.programs.len()));
         }
@@ -320,7 +334,8 @@ fn run_set(set: &ProgSet) -> SetResult {
                 }
             }
             bridge::sync_tid();
-            let out = final_oracle(id, block);
+            let plain = kinds.iter().any(|k| matches!(k, Kind::N | Kind::TN));
+            let out = final_oracle(id, block, plain);
             EXECS.fetch_add(1, Ordering::Relaxed);
             let sig = bridge::SIG.with(|s| {
                 let mut h = std::collections::hash_map::DefaultHasher::new();
